@@ -183,3 +183,49 @@ def check_ts(chk, cases, kind, res):
                           "applying the same decision objects twice gives another result in TypeScript",
                           {"base": base, "decisions": plain})
     return n
+
+
+# ---- the same cases with other key names -----------------------------------------------------------------------------
+# The universes use the keys "a" / "b"; an implementation may treat some NAMES specially (in JavaScript a plain object
+# used as a lookup table inherits constructor / toString / valueOf / hasOwnProperty ...). Renaming is a bijection on keys,
+# so the expected document is the renamed one.
+RENAMINGS = ({"a": "constructor", "b": "hasOwnProperty"}, {"a": "toString", "b": "valueOf"})
+
+
+def rename_doc(x, m):
+    if isinstance(x, dict):
+        return {m.get(k, k): rename_doc(v, m) for k, v in x.items()}
+    if isinstance(x, list):
+        return [rename_doc(v, m) for v in x]
+    return x
+
+
+def rename_diff(d, m):
+    out = []
+    for e in d:
+        e = dict(e)
+        if isinstance(e.get("key"), str):
+            e["key"] = m.get(e["key"], e["key"])
+        if "value" in e:
+            e["value"] = rename_doc(e["value"], m)
+        if "valuelist" in e:
+            e["valuelist"] = rename_doc(e["valuelist"], m)
+        if "diff" in e:
+            e["diff"] = rename_diff(e["diff"], m)
+        out.append(e)
+    return out
+
+
+def rename_case(c, m):
+    """a DecisionModel case under a key renaming (re-encoded)"""
+    from .encode import enc_decision
+    plain = []
+    for e in c["D"]:
+        d = dec_decision(e)
+        d["common_path"] = [m.get(k, k) if isinstance(k, str) else k for k in d["common_path"]]
+        for f in ("local_diff", "remote_diff", "custom_diff"):
+            if f in d:
+                d[f] = rename_diff(d[f], m)
+        plain.append(d)
+    return {"base": enc(rename_doc(dec(c["base"]), m)), "D": [enc_decision(d) for d in plain],
+            "r": enc(rename_doc(dec(c["r"]), m)), "tag": c["tag"]}
